@@ -127,6 +127,7 @@ func c03Menu(f *concFix) []crashCmd {
 		{"new-task{claim}", core.R("", "--json", "new", "task").In(`{"title":"NC","claim":"creator"}`)},
 		{"set{result,state}", core.R("", "--json", "set", f.T2).In(`{"result_path":"out.txt","result_summary":"did it","state":"done"}`)},
 		{"init", core.R("", "--json", "init")},
+		{"new-task-200KB", core.R("", "--json", "new", "task").In(jsonStr(map[string]string{"title": "big", "body": strings.Repeat("large body ", 18000)}))},
 	}
 }
 
